@@ -121,6 +121,11 @@ def _key(e: ast.expr) -> str:
             else:
                 parts.append(k)
         return "(" + (" and " if isinstance(e.op, ast.And) else " or ").join(sorted(parts)) + ")"
+    if isinstance(e, ast.Compare) and len(e.ops) == 1 and isinstance(e.ops[0], (ast.Eq, ast.NotEq)) and isinstance(e.comparators[0], ast.Constant) \
+            and e.comparators[0].value == 0 and type(e.comparators[0].value) is int and isinstance(e.left, ast.BinOp) \
+            and isinstance(e.left.op, (ast.Mod, ast.BitAnd, ast.BitOr, ast.BitXor, ast.LShift, ast.RShift, ast.FloorDiv)):
+        # for the integers these operators yield, `x != 0` is the truth of x and `x == 0` its negation
+        return _key(e.left) if isinstance(e.ops[0], ast.NotEq) else "not " + _key(e.left)
     if isinstance(e, ast.Compare) and len(e.ops) == 1:
         l, r, op = _u(e.left), _u(e.comparators[0]), type(e.ops[0])
         if op in _MIRROR and (op in (ast.Gt, ast.GtE) or (op in (ast.Eq, ast.NotEq) and l > r)):
@@ -1004,6 +1009,24 @@ def enumerate_to_counter(fn: ast.FunctionDef, ref_fn: dict, known) -> None:
             return enumerate_to_counter(fn, ref_fn, known)
 
 
+def adopt_reference_tests(fn: ast.FunctionDef, ref_fn: dict) -> None:
+    """A test that is the reference's test in another spelling (same order-insensitive key: operands swapped, comparison
+    mirrored, negation pushed inside, `x % 8 != 0` for `x % 8`) is given the reference's spelling."""
+    srcs = ref_fn.get("test_src") or {}
+    if not srcs:
+        return
+    for n in ast.walk(fn):
+        if isinstance(n, (ast.If, ast.While, ast.IfExp, ast.Assert)):
+            k = _key(n.test)
+            want = srcs.get(k)
+            if want is not None and _u(n.test) != want:
+                try:
+                    n.test = ast.copy_location(ast.parse(want, mode="eval").body, n.test)
+                except SyntaxError:
+                    pass
+    ast.fix_missing_locations(fn)
+
+
 def hoist_common_tail(fn: ast.FunctionDef, ref_fn: dict) -> None:
     """`if c: A; T else: B; T`  ->  `if c: A else: B` + T, for a statement T that the reference function has fewer times than
     the current one (tail duplication undone).  Falling off the end of either branch reaches T in both forms."""
@@ -1026,6 +1049,32 @@ def hoist_common_tail(fn: ast.FunctionDef, ref_fn: dict) -> None:
                     tails(last.orelse)
             tails(blk[-2].body)
             tails(blk[-2].orelse)
+    # every path of the closing if chain (nested chains included) ends in `return E_i`, the reference ends in `return x` and has
+    # `x = E_i` for each E_i that is not x itself: the leaves assign, one closing `return x` follows the chain
+    if fn.body and isinstance(fn.body[-1], ast.If) and ref_lines and ref_lines[-1].startswith("return ") and ref_lines[-1][7:].isidentifier():
+        x_ = ref_lines[-1][7:]
+
+        def leaves_of(stmts):
+            if not stmts:
+                return None
+            last = stmts[-1]
+            if isinstance(last, ast.Return) and last.value is not None:
+                return [(stmts, last)]
+            if isinstance(last, ast.If) and last.orelse:
+                a_, b_ = leaves_of(last.body), leaves_of(last.orelse)
+                return None if a_ is None or b_ is None else a_ + b_
+            return None
+        lv = leaves_of(fn.body)
+        if lv and len(lv) >= 2 and all(_u(r.value) == x_ or f"{x_} = {_u(r.value)}" in ref_lines for _b, r in lv) and any(_u(r.value) != x_ for _b, r in lv):
+            for b_, r in lv:
+                if _u(r.value) == x_:
+                    b_.pop()
+                    if not b_:
+                        b_.append(ast.copy_location(ast.Pass(), r))
+                else:
+                    b_[-1] = ast.copy_location(ast.Assign(targets=[ast.Name(id=x_, ctx=ast.Store())], value=r.value), r)
+            fn.body.append(ast.copy_location(ast.Return(value=ast.Name(id=x_, ctx=ast.Load())), fn.body[-1]))
+            ast.fix_missing_locations(fn)
     for _round in range(8):
         changed = False
         cur_lines = [l.strip() for l in ast.unparse(fn).splitlines()]
